@@ -14,7 +14,7 @@ Obligations (listed in `props/C18.py`): `no_panic_msgsize`, `size_eq_extent`,
 `msgpack_depth_boundary`, `msgpack_depth_boundary_any_spelling`,
 `msgpack_slice_eq_reader`, `depth_verdict_slice_eq_reader`, `recursion_bounded`,
 `msgpack_roundtrip`, `msgpack_frame_recover`, `msgpack_fixed_point`,
-`own_msgpack_first_byte`.
+`decoded_values_wellformed`, `msgpack_fixed_point_any_input`, `own_msgpack_first_byte`.
 
 How the two depth counters relate (worked out from the code, then proved):
 * `next_value_size(input, L)` fails with `DepthLimitExceeded` when it is *called*
@@ -277,6 +277,29 @@ theorem msgpack_fixed_point (v : MVal) (d : Nat) (hwf : v.WF false) (hn : v.nest
     ∃ v', decode (encode v) d = .ok (v', []) ∧ encode v' = encode v :=
   ⟨v, by simpa using roundtrip_val false v d [] hwf hn, rfl⟩
 
+/-- Every value the decoder produces from bytes is well-formed (in the wire
+range of its type, lengths below 2^32, `str` well-formed UTF-8) and nests
+within the counter — so the round-trip theorem applies to it. -/
+theorem decoded_values_wellformed (acceptExt : Bool) (d : Nat) (bs : List Nat) (v : MVal)
+    (rest : List Nat) (hb : ∀ c ∈ bs, c < 256) (h : decodeG acceptExt d bs = .ok (v, rest)) :
+    v.WF acceptExt ∧ (v.nesting < d ∨ v.nesting = 0) :=
+  ⟨decode_wf acceptExt d bs v rest hb h, decode_within acceptExt d bs v rest h⟩
+
+/-- The fixed point for **every input**, whatever its spelling: what xt read
+from any bytes, once written by the serializer, reads back as the same value;
+and at the level of whole translations, `xt(m→m)(xt(m→m)(x)) = xt(m→m)(x)`:
+the documents written by one translation are exactly the documents the next
+one reads, and it succeeds. -/
+theorem msgpack_fixed_point_any_input (bs : List Nat) (hb : ∀ c ∈ bs, c < 256) :
+    (∀ v rest, decode bs depthLimit = .ok (v, rest) →
+      decode (encode v) depthLimit = .ok (v, [])) ∧
+    decodeMany (((decodeMany bs depthLimit).1).flatMap encode) depthLimit =
+      ((decodeMany bs depthLimit).1, .ok) := by
+  constructor
+  · intro v rest h
+    simpa using reencode_fixed_point false depthLimit (by decide) bs v rest hb h []
+  · exact m2m_idempotent false depthLimit (by decide) bs hb
+
 /-- The first byte of an encoded array or map is a collection marker — what
 `input_matches` looks for — whatever the collection contains. -/
 theorem own_msgpack_first_byte :
@@ -305,6 +328,8 @@ theorem own_msgpack_first_byte :
 #print axioms illformed_str_becomes_bin
 #print axioms msgpack_frame_recover
 #print axioms msgpack_fixed_point
+#print axioms decoded_values_wellformed
+#print axioms msgpack_fixed_point_any_input
 #print axioms own_msgpack_first_byte
 
 end Xt.Props.C18
